@@ -100,8 +100,9 @@ class Profiles:
         'int': r'[-]?\d+',
         'nmchar': r'[\w-]|{nonascii}|{escape}',
         'num': r'[-]?\d+|[-]?\d*\.\d+',
-        'positivenum': r'\d+|\d*\.\d+',
-        'number': r'{num}',
+        'positivenum': r'[+]?\d+|[+]?\d*\.\d+',
+        # the value types of CSS 2.1 4.3 take an optional sign, '+' or '-'
+        'number': r'[-+]?\d+|[-+]?\d*\.\d+',
         'string': r'{string1}|{string2}',
         'string1': r'"(\\\"|[^\"])*"',
         'uri': r'url\({w}({string}|(\\\)|[^\)])*){w}\)',
@@ -116,13 +117,13 @@ class Profiles:
         'uicolor': r'(ActiveBorder|ActiveCaption|AppWorkspace|Background|ButtonFace|ButtonHighlight|ButtonShadow|ButtonText|CaptionText|GrayText|Highlight|HighlightText|InactiveBorder|InactiveCaption|InactiveCaptionText|InfoBackground|InfoText|Menu|MenuText|Scrollbar|ThreeDDarkShadow|ThreeDFace|ThreeDHighlight|ThreeDLightShadow|ThreeDShadow|Window|WindowFrame|WindowText)',
         'color': r'{namedcolor}|{hexcolor}|{rgbcolor}|{uicolor}',
         # 'color': r'(maroon|red|orange|yellow|olive|purple|fuchsia|white|lime|green|navy|blue|aqua|teal|black|silver|gray|ActiveBorder|ActiveCaption|AppWorkspace|Background|ButtonFace|ButtonHighlight|ButtonShadow|ButtonText|CaptionText|GrayText|Highlight|HighlightText|InactiveBorder|InactiveCaption|InactiveCaptionText|InfoBackground|InfoText|Menu|MenuText|Scrollbar|ThreeDDarkShadow|ThreeDFace|ThreeDHighlight|ThreeDLightShadow|ThreeDShadow|Window|WindowFrame|WindowText)|#[0-9a-f]{3}|#[0-9a-f]{6}|rgb\({w}{int}{w},{w}{int}{w},{w}{int}{w}\)|rgb\({w}{num}%{w},{w}{num}%{w},{w}{num}%{w}\)',
-        'integer': r'{int}',
-        'length': r'0|{num}(em|ex|px|in|cm|mm|pt|pc)',
+        'integer': r'[-+]?\d+',
+        'length': r'0|{number}(em|ex|px|in|cm|mm|pt|pc)',
         'positivelength': r'0|{positivenum}(em|ex|px|in|cm|mm|pt|pc)',
-        'angle': r'0|{num}(deg|grad|rad)',
-        'time': r'0|{num}m?s',
-        'frequency': r'0|{num}k?Hz',
-        'percentage': r'{num}%',
+        'angle': r'0|{number}(deg|grad|rad)',
+        'time': r'0|{number}m?s',
+        'frequency': r'0|{number}k?Hz',
+        'percentage': r'{number}%',
         'shadow': r'(inset\s+)?{length}\s+{length}(\s+{length}){0,2}(\s+{color})?',
     }
 
